@@ -2,6 +2,8 @@
 
 package gtree
 
+import "context"
+
 func init() {
 	verifRegister("VerifC08", VerifC08)
 	verifRegister("VerifC08Mkdir", VerifC08Mkdir)
@@ -325,4 +327,56 @@ func VerifC08Mkdir() {
 	verifAssert(e2 == nil, "C08.mkdir.verifies")
 	verifAssert(vfsCount() == before, "C08.mkdir.readonly")
 	verifReach("C08.mkdir.end")
+}
+
+func init() {
+	verifRegister("VerifC08Env", VerifC08Env)
+}
+
+// VerifC08Env: Verify in an environment in which no node path can exist: the target directory is a regular file, or
+// is not there at all. Forests of n rows, From-Markdown (simple and massive) and From-Root, strict or not: the call
+// returns a non-nil error (nil would claim that every node path exists) and changes nothing.
+func VerifC08Env() {
+	n := verifN()
+	lines, rows := wellFormedLines(n, verifName)
+	nodes, roots := specForest(lines)
+	vfsReset()
+	asFile := verifFlag("targetIsFile")
+	if asFile {
+		vfsTargetAsFile()
+	} else {
+		vfsRemoveTarget()
+	}
+	vfsSeal()
+	opts := []Option{WithTargetDir(vfsTarget())}
+	if verifFlag("strict") {
+		opts = append(opts, WithStrictVerify())
+	}
+	var err error
+	verifContext("C08.env")
+	switch verifChoose("route", 0, 2) {
+	case 0:
+		err = VerifyFromMarkdown(&verifReader{lines: rows}, opts...)
+	case 1:
+		err = VerifyFromMarkdown(&verifReader{lines: rows}, append(opts, WithMassive(context.Background()))...)
+	case 2:
+		verifAssume(len(roots) == 1)
+		var real []*Node
+		for i := range nodes {
+			if nodes[i].parent < 0 {
+				real = append(real, NewRoot(nodes[i].name))
+			} else {
+				real = append(real, real[nodes[i].parent].Add(nodes[i].name))
+			}
+		}
+		err = VerifyFromRoot(real[0], opts...)
+	}
+	cls := "/notarget"
+	if asFile {
+		cls = "/targetisfile"
+	}
+	verifAssert(err != nil, "C08.env.reported"+cls)
+	verifAssert(vfsTouched() == 0, "C08.env.readonly")
+	verifAssert(verifQuiesce() == 0, "C08.env.noleak")
+	verifReach("C08.env.end")
 }
